@@ -202,9 +202,37 @@ func write(b *cryptobyte.Builder, prog []op, exp *[]string) {
 	}
 }
 
+// Read modes. Every program is read back once per mode and all modes must report the same values and
+// remainder: an out-parameter that a reader leaves unwritten (or only partly written) keeps whatever the
+// caller had in it, which a fresh zero variable hides.
+//
+//	mZero    every out-parameter is a fresh zero value (flags false, ints 0, slices/Strings nil)
+//	mPoison  every out-parameter is pre-set to a non-default value (flags true, ints 0xa5.., slices and
+//	         Strings non-nil and non-empty, big.Int / OID / BitString / time non-zero)
+//	mShared  one variable per type is reused for the whole program (the hand-written-parser idiom
+//	         `var present bool` shared by consecutive optional fields); optional INTEGERs go to a *big.Int
+//	mNilFlag outPresent == nil where the API allows it (presence inferred from the consumed length),
+//	         all other out-parameters poisoned with the complementary pattern
+const (
+	mZero = iota
+	mPoison
+	mShared
+	mNilFlag
+	nModes
+)
+
+var modeName = [nModes]string{"zero-initialised", "poisoned", "shared-variables", "nil-outPresent"}
+
 type rd struct {
 	vals      []string
 	ambiguous bool // an absent optional element was followed by a byte equal to its tag
+	mode      int
+	// mShared state
+	sb   bool
+	si   int64
+	sy   []byte
+	sc   cryptobyte.String
+	sbig *big.Int
 }
 
 func (r *rd) absent(s *cryptobyte.String, tag int) {
@@ -213,128 +241,252 @@ func (r *rd) absent(s *cryptobyte.String, tag int) {
 	}
 }
 
+var poisonBytes = []byte{0xde, 0xad, 0xbe, 0xef, 0x30, 0x03, 0x01, 0x01, 0xff}
+
+// out-parameter factories: the returned pointer is what the reader gets.
+func (r *rd) pBool() *bool {
+	switch r.mode {
+	case mShared:
+		return &r.sb
+	case mPoison:
+		v := true
+		return &v
+	}
+	return new(bool)
+}
+
+// flag for a boolean VALUE (ReadASN1Boolean / ReadOptionalASN1Boolean): in mNilFlag the complement of mPoison
+func (r *rd) pBoolVal(want bool) *bool {
+	switch r.mode {
+	case mShared:
+		return &r.sb
+	case mPoison:
+		v := !want // the reader must overwrite the opposite value
+		return &v
+	case mNilFlag:
+		v := true
+		return &v
+	}
+	return new(bool)
+}
+
+func (r *rd) pI64() *int64 {
+	switch r.mode {
+	case mShared:
+		return &r.si
+	case mPoison:
+		v := int64(-0x5a5a5a5a5a5a5a5b)
+		return &v
+	case mNilFlag:
+		v := int64(0x0102030405060708)
+		return &v
+	}
+	return new(int64)
+}
+
+func (r *rd) pBytes() *[]byte {
+	switch r.mode {
+	case mShared:
+		return &r.sy
+	case mPoison:
+		v := append([]byte(nil), poisonBytes...)
+		return &v
+	case mNilFlag:
+		v := []byte{}
+		return &v
+	}
+	return new([]byte)
+}
+
+func (r *rd) pStr() *cryptobyte.String {
+	switch r.mode {
+	case mShared:
+		return &r.sc
+	case mPoison:
+		v := cryptobyte.String(append([]byte(nil), poisonBytes...))
+		return &v
+	case mNilFlag:
+		v := cryptobyte.String([]byte{0x01, 0x01, 0xff, 0x02, 0x01, 0x05})
+		return &v
+	}
+	return new(cryptobyte.String)
+}
+
+func (r *rd) poisoned() bool { return r.mode != mZero }
+
 func (r *rd) read(s *cryptobyte.String, prog []op) bool {
 	for _, o := range prog {
 		switch o.kind {
 		case "u8":
 			var v uint8
+			if r.poisoned() {
+				v = 0xa5
+			}
 			if !s.ReadUint8(&v) {
 				return false
 			}
 			r.vals = append(r.vals, strconv.Itoa(int(v)))
 		case "u16":
 			var v uint16
+			if r.poisoned() {
+				v = 0xa5a5
+			}
 			if !s.ReadUint16(&v) {
 				return false
 			}
 			r.vals = append(r.vals, strconv.Itoa(int(v)))
 		case "u24":
 			var v uint32
+			if r.poisoned() {
+				v = 0xa5a5a5a5 // the top byte must be cleared by ReadUint24
+			}
 			if !s.ReadUint24(&v) {
 				return false
 			}
 			r.vals = append(r.vals, strconv.FormatUint(uint64(v), 10))
 		case "u32":
 			var v uint32
+			if r.poisoned() {
+				v = 0xa5a5a5a5
+			}
 			if !s.ReadUint32(&v) {
 				return false
 			}
 			r.vals = append(r.vals, strconv.FormatUint(uint64(v), 10))
 		case "b":
-			var v []byte
-			if !s.ReadBytes(&v, len(zv.UnHex(o.a))) {
+			v := r.pBytes()
+			if !s.ReadBytes(v, len(zv.UnHex(o.a))) {
 				return false
 			}
-			r.vals = append(r.vals, hx(v))
+			r.vals = append(r.vals, hx(*v))
 		case "p1[", "p2[", "p3[":
-			var c cryptobyte.String
+			c := r.pStr()
 			ok := false
 			switch o.kind {
 			case "p1[":
-				ok = s.ReadUint8LengthPrefixed(&c)
+				ok = s.ReadUint8LengthPrefixed(c)
 			case "p2[":
-				ok = s.ReadUint16LengthPrefixed(&c)
+				ok = s.ReadUint16LengthPrefixed(c)
 			case "p3[":
-				ok = s.ReadUint24LengthPrefixed(&c)
+				ok = s.ReadUint24LengthPrefixed(c)
 			}
-			if !ok || !r.read(&c, o.body) || !c.Empty() {
+			if !ok {
+				return false
+			}
+			cc := *c // the shared variable may be reused inside the body
+			if !r.read(&cc, o.body) || !cc.Empty() {
 				return false
 			}
 		case "a[":
-			var c cryptobyte.String
-			if !s.ReadASN1(&c, cbasn1.Tag(o.tag)) || !r.read(&c, o.body) || !c.Empty() {
+			c := r.pStr()
+			if !s.ReadASN1(c, cbasn1.Tag(o.tag)) {
+				return false
+			}
+			cc := *c
+			if !r.read(&cc, o.body) || !cc.Empty() {
 				return false
 			}
 		case "oa[", "na":
 			if o.kind == "na" {
 				r.absent(s, o.tag)
 			}
-			var c cryptobyte.String
+			c := r.pStr()
 			var present bool
-			if !s.ReadOptionalASN1(&c, &present, cbasn1.Tag(o.tag)) {
-				return false
+			if r.mode == mNilFlag {
+				before := len(*s)
+				if !s.ReadOptionalASN1(c, nil, cbasn1.Tag(o.tag)) {
+					return false
+				}
+				present = len(*s) != before // an element is at least two bytes long
+			} else {
+				pp := r.pBool()
+				if !s.ReadOptionalASN1(c, pp, cbasn1.Tag(o.tag)) {
+					return false
+				}
+				present = *pp
 			}
 			if present {
 				r.vals = append(r.vals, "+")
 				if o.kind == "na" { // only in the ambiguous situation
 					continue
 				}
-				if !r.read(&c, o.body) || !c.Empty() {
+				cc := *c
+				if !r.read(&cc, o.body) || !cc.Empty() {
 					return false
 				}
 			} else {
 				r.vals = append(r.vals, "-")
 			}
 		case "i":
-			var v int64
-			if !s.ReadASN1Integer(&v) {
+			v := r.pI64()
+			if !s.ReadASN1Integer(v) {
 				return false
 			}
-			r.vals = append(r.vals, strconv.FormatInt(v, 10))
+			r.vals = append(r.vals, strconv.FormatInt(*v, 10))
 		case "it":
-			var v int64
-			if !s.ReadASN1Int64WithTag(&v, cbasn1.Tag(o.tag)) {
+			v := r.pI64()
+			if !s.ReadASN1Int64WithTag(v, cbasn1.Tag(o.tag)) {
 				return false
 			}
-			r.vals = append(r.vals, strconv.FormatInt(v, 10))
+			r.vals = append(r.vals, strconv.FormatInt(*v, 10))
 		case "e":
 			var v int
+			if r.poisoned() {
+				v = -0x5a5a5a5a5a5a5a5b
+			}
 			if !s.ReadASN1Enum(&v) {
 				return false
 			}
 			r.vals = append(r.vals, strconv.Itoa(v))
 		case "u":
 			var v uint64
+			if r.poisoned() {
+				v = 0xa5a5a5a5a5a5a5a5
+			}
 			if !s.ReadASN1Integer(&v) {
 				return false
 			}
 			r.vals = append(r.vals, strconv.FormatUint(v, 10))
 		case "n":
 			v := new(big.Int)
+			if r.mode == mShared {
+				if r.sbig == nil {
+					r.sbig = new(big.Int)
+				}
+				v = r.sbig
+			} else if r.poisoned() {
+				v.SetString("-123456789012345678901234567890123456789012345678901234567890", 10)
+			}
 			if !s.ReadASN1Integer(v) {
 				return false
 			}
 			r.vals = append(r.vals, v.String())
 		case "t", "f":
-			var v bool
-			if !s.ReadASN1Boolean(&v) {
+			v := r.pBoolVal(o.kind == "t")
+			if !s.ReadASN1Boolean(v) {
 				return false
 			}
-			r.vals = append(r.vals, tf(v))
+			r.vals = append(r.vals, tf(*v))
 		case "o":
 			var v asn1.ObjectIdentifier
+			if r.poisoned() {
+				v = asn1.ObjectIdentifier{2, 999, 7, 7, 7, 7, 7, 7, 7, 7, 7, 7}
+			}
 			if !s.ReadASN1ObjectIdentifier(&v) {
 				return false
 			}
 			r.vals = append(r.vals, oidStr(v))
 		case "s":
-			var v []byte
-			if !s.ReadASN1Bytes(&v, cbasn1.OCTET_STRING) {
+			v := r.pBytes()
+			if !s.ReadASN1Bytes(v, cbasn1.OCTET_STRING) {
 				return false
 			}
-			r.vals = append(r.vals, hx(v))
+			r.vals = append(r.vals, hx(*v))
 		case "bs":
 			var v asn1.BitString
+			if r.poisoned() {
+				v = asn1.BitString{Bytes: append([]byte(nil), poisonBytes...), BitLength: 67}
+			}
 			if !s.ReadASN1BitString(&v) {
 				return false
 			}
@@ -346,6 +498,9 @@ func (r *rd) read(s *cryptobyte.String, prog []op) bool {
 			r.vals = append(r.vals, "z")
 		case "g":
 			var v time.Time
+			if r.poisoned() {
+				v = time.Date(1234, 5, 6, 7, 8, 9, 10, time.FixedZone("x", 3600))
+			}
 			if !s.ReadASN1GeneralizedTime(&v) {
 				return false
 			}
@@ -356,36 +511,65 @@ func (r *rd) read(s *cryptobyte.String, prog []op) bool {
 				d = o.a
 				r.absent(s, o.tag)
 			}
-			var v int64
-			if !s.ReadOptionalASN1Integer(&v, cbasn1.Tag(o.tag), atoi64(d)) {
+			if r.mode == mShared {
+				// out and default are *big.Int (the other documented out type)
+				if r.sbig == nil {
+					r.sbig = new(big.Int)
+				}
+				def := big.NewInt(atoi64(d))
+				if !s.ReadOptionalASN1Integer(r.sbig, cbasn1.Tag(o.tag), def) {
+					return false
+				}
+				if def.Cmp(big.NewInt(atoi64(d))) != 0 {
+					r.vals = append(r.vals, "!default-modified")
+				}
+				r.vals = append(r.vals, r.sbig.String())
+				continue
+			}
+			v := r.pI64()
+			if !s.ReadOptionalASN1Integer(v, cbasn1.Tag(o.tag), atoi64(d)) {
 				return false
 			}
-			r.vals = append(r.vals, strconv.FormatInt(v, 10))
+			r.vals = append(r.vals, strconv.FormatInt(*v, 10))
 		case "os", "ns":
 			if o.kind == "ns" {
 				r.absent(s, o.tag)
 			}
-			var v []byte
+			v := r.pBytes()
 			var present bool
-			if !s.ReadOptionalASN1OctetString(&v, &present, cbasn1.Tag(o.tag)) {
-				return false
+			if r.mode == mNilFlag {
+				before := len(*s)
+				if !s.ReadOptionalASN1OctetString(v, nil, cbasn1.Tag(o.tag)) {
+					return false
+				}
+				present = len(*s) != before
+			} else {
+				pp := r.pBool()
+				if !s.ReadOptionalASN1OctetString(v, pp, cbasn1.Tag(o.tag)) {
+					return false
+				}
+				present = *pp
 			}
 			if present {
-				r.vals = append(r.vals, "+"+hx(v))
+				r.vals = append(r.vals, "+"+hx(*v))
+			} else if *v != nil {
+				// documented: "If no element with a matching tag is present, it sets out to nil"
+				r.vals = append(r.vals, "-!out="+hx(*v)+"(want-nil)")
 			} else {
 				r.vals = append(r.vals, "-")
 			}
 		case "ob", "nb":
 			d := o.b
+			want := o.a == "t"
 			if o.kind == "nb" {
 				d = o.a
 				r.absent(s, int(cbasn1.BOOLEAN))
 			}
-			var v bool
-			if !s.ReadOptionalASN1Boolean(&v, d == "t") {
+			v := r.pBoolVal(want)
+			if !s.ReadOptionalASN1Boolean(v, d == "t") {
 				return false
 			}
-			r.vals = append(r.vals, tf(v))
+			r.vals = append(r.vals, tf(*v))
 		default:
 			panic("bad op " + o.kind)
 		}
@@ -474,9 +658,18 @@ func exec(line string) zv.Out {
 		tags = append(tags, "len>=0x80")
 	}
 	in := append(append(make([]byte, 0, len(out)+len(tail)), out...), tail...)
-	s := cryptobyte.String(in)
-	r := &rd{}
-	ok := r.read(&s, prog)
+	// the program is read back once per mode (see mZero…); the poisoned run is the reported one
+	runMode := func(mode int) (*rd, bool, []byte) {
+		buf := append(make([]byte, 0, len(in)+1), in...) // non-nil even when empty, as before
+		s := cryptobyte.String(buf)
+		r := &rd{mode: mode, sb: true, si: -0x5a5a5a5a5a5a5a5b, sy: []byte{0xde, 0xad}, sc: cryptobyte.String([]byte{0x05, 0x00})}
+		ok := r.read(&s, prog)
+		if !bytes.Equal(buf, in) {
+			r.vals = append(r.vals, "!input-modified")
+		}
+		return r, ok, []byte(s)
+	}
+	r, ok, s := runMode(mPoison)
 	var goOut, viol string
 	if !ok {
 		goOut = hx(out) + " readfail"
@@ -488,9 +681,23 @@ func exec(line string) zv.Out {
 	} else {
 		goOut = fmt.Sprintf("%s ok %s %s", hx(out), joinVals(r.vals), hx(s))
 		if joinVals(r.vals) != joinVals(exp) {
-			viol = fmt.Sprintf("values read back differ from the values written: wrote %s, read %s (bytes %s)", joinVals(exp), joinVals(r.vals), hx(out))
+			viol = fmt.Sprintf("values read back differ from the values written: wrote %s, read %s (bytes %s; out-parameters pre-set to non-default values)", joinVals(exp), joinVals(r.vals), hx(out))
 		} else if !bytes.Equal(s, tail) {
 			viol = fmt.Sprintf("unread remainder is %s, expected the tail %s (bytes %s)", hx(s), hx(tail), hx(out))
+		}
+	}
+	for _, m := range []int{mZero, mShared, mNilFlag} {
+		r2, ok2, s2 := runMode(m)
+		if viol != "" {
+			break
+		}
+		switch {
+		case ok2 != ok:
+			viol = fmt.Sprintf("readers succeed=%v with %s out-parameters but succeed=%v with poisoned ones (bytes %s)", ok2, modeName[m], ok, hx(out))
+		case ok && joinVals(r2.vals) != joinVals(r.vals):
+			viol = fmt.Sprintf("results depend on the previous contents of the out-parameters: %s run read %s, poisoned run read %s (wrote %s, bytes %s)", modeName[m], joinVals(r2.vals), joinVals(r.vals), joinVals(exp), hx(out))
+		case ok && !bytes.Equal(s2, s):
+			viol = fmt.Sprintf("unread remainder differs between the %s run (%s) and the poisoned run (%s) (bytes %s)", modeName[m], hx(s2), hx(s), hx(out))
 		}
 	}
 	trivial := false
@@ -705,6 +912,7 @@ func genAll(zg *zv.Gen) {
 		"c21 rw o:1.2.268435456 -", "c21 rw o:1.2.2147483647 -", "c21 rw o:2.268435456.1 -", "c21 rw o:1.2.268435455 -", "c21 rw o:2.2147483567 -",
 		"c21 rw - -", "c21 rw - 00", "c21 rw p1[,] -", "c21 rw a48[,] -", "c21 rw a31[,u8:1,] -", "c21 rw p1[,p2[,p3[,a48[,u8:1,],],],] ff",
 		"c21 rw oi160:5:7,u8:160 -", "c21 rw ni160:7,u8:161 -", "c21 rw ni160:7,a160[,i:5,] -", "c21 rw os161:aabb,ns161,u8:1 -", "c21 rw oa162[,i:1,],na162,z -",
+		"c21 rw oa160[,s:7a65726f,],na161,oa162[,s:74776f,],u16:48879 -", "c21 rw na160,i:5 -", "c21 rw os160:aa,ns161,os162:-,ns163 -", "c21 rw oi160:5:7,ni161:7,ni162:0 -",
 		"c21 rw u:18446744073709551615 -", "c21 rw u:9223372036854775808 -", "c21 rw i:-9223372036854775808 -", "c21 rw n:-128,n:128,n:-129,n:0 -",
 	} {
 		zg.Emit(l)
@@ -728,6 +936,27 @@ func genAll(zg *zv.Gen) {
 		}
 	}
 	rec(nil, 0)
+	// runs of consecutive optional fields (present/absent in every combination, as in a hand-written DER parser
+	// that walks [0] [1] [2] … with one `present` variable), <= 3 (quick) / 4 (thorough) fields, each run alone,
+	// followed by data and wrapped in a SEQUENCE
+	optAlpha := [][]string{{"oa160[", "s:00", "]"}, {"na160"}, {"oa161[", "]"}, {"na161"}, {"oi162:5:7"}, {"ni162:7"}, {"ni162:0"},
+		{"os163:bb"}, {"os163:-"}, {"ns163"}, {"ob:t:f"}, {"ob:f:t"}, {"nb:t"}, {"nb:f"}}
+	maxo := zg.N(3, 4)
+	var reco func(prefix []string, n int)
+	reco = func(prefix []string, n int) {
+		if n > 0 {
+			emit(zg, prefix, nil)
+			emit(zg, append(append([]string{}, prefix...), "u16:48879"), nil)
+			emit(zg, append(append([]string{"a48["}, prefix...), "]", "z"), []byte{0xa0})
+		}
+		if n == maxo {
+			return
+		}
+		for _, a := range optAlpha {
+			reco(append(append([]string{}, prefix...), a...), n+1)
+		}
+	}
+	reco(nil, 0)
 	// length boundaries of every kind of block, each followed by data
 	g := &gen{r: r, big: zg.N(12, 400)}
 	bl := []int{0, 1, 0x7d, 0x7e, 0x7f, 0x80, 0x81, 0xfc, 0xfd, 0xfe, 0xff, 0x100, 0x101, 0x102}
@@ -767,5 +996,5 @@ func genAll(zg *zv.Gen) {
 
 func init() {
 	zv.Register(&zv.Prop{ID: "C21", Topic: "c21", Gen: genAll, Exec: exec,
-		Rule: "write/read programs over the cryptobyte Builder/String API: every sequence of <= 2 (quick) / 3 (thorough) ops over a 23-op alphabet with and without trailing data; every kind of block at the length boundaries 0/1/0x7f/0x80/0xff/0x100/0xffff/0x10000 followed by data; random programs of <= 12 ops, nesting <= 4, with boundary integers, OID arcs up to 2^31-1, big integers up to 40 bytes, optional elements present/absent followed by other data, tails of 0..4 bytes; a case is one program+tail; T3 = the mirrored readers succeed, return the written values and leave exactly the tail (programs whose build fails, and absent optionals followed by an equal tag byte, are counted trivial)"})
+		Rule: "write/read programs over the cryptobyte Builder/String API: every sequence of <= 2 (quick) / 3 (thorough) ops over a 23-op alphabet with and without trailing data; every kind of block at the length boundaries 0/1/0x7f/0x80/0xff/0x100/0xffff/0x10000 followed by data; random programs of <= 12 ops, nesting <= 4, with boundary integers, OID arcs up to 2^31-1, big integers up to 40 bytes, optional elements present/absent followed by other data, tails of 0..4 bytes; a case is one program+tail; every run of <= 3 (quick) / 4 (thorough) consecutive optional fields (present/absent, 14-op alphabet) alone, followed by data and inside a SEQUENCE; every program is read back four times: with every out-parameter of every reader pre-set to a non-default value (flags true, integers 0xa5.., slices/Strings/big.Int/OID/BitString/time non-empty), zero-initialised, with one shared variable per type reused for the whole program (optional INTEGERs into *big.Int), and with outPresent == nil; T3 = in all four the mirrored readers succeed, return the written values (absent optional: present=false / the default / a nil slice), leave exactly the tail and do not modify the input (programs whose build fails, and absent optionals followed by an equal tag byte, are counted trivial)"})
 }
